@@ -213,9 +213,10 @@ func snapCoord(r *rand.Rand, lo, hi, span float64) float64 {
 }
 
 // c16-random: seeded random boxes / points / intervals measured on the real code.
-//   pts   dyadic reals (multiples of 1/256): exact in float64, judged exactly by the trace spec
-//   boxf  arbitrary float64: errors against the clamp / farthest-corner oracle, measured here
-//   ovl   random intervals with ties, projected to ranks (order preserving)
+//
+//	pts   dyadic reals (multiples of 1/256): exact in float64, judged exactly by the trace spec
+//	boxf  arbitrary float64: errors against the clamp / farthest-corner oracle, measured here
+//	ovl   random intervals with ties, projected to ranks (order preserving)
 func c16Random(args []string) error {
 	r := rand.New(rand.NewSource(seed()*7919 + 16))
 	nev := 60
